@@ -202,7 +202,8 @@ static void one_call(reproc_t *p, bool full)
       if (nullsrc || nsrc == 0) {
         VP_ASSERT(C14, r == REPROC_EINVAL, "poll without sources is not rejected");
       } else if (null_handle) {
-        VP_ASSERT(C14, r == REPROC_EPIPE, "poll over only empty sources does not return the closed-pipe error");
+        VP_ASSERT(C14, r == REPROC_EPIPE || (VP_F > 0 && r < 0),
+                  "poll over only empty sources does not return the closed-pipe error");
       } else {
         VP_ASSERT(C14, r == 0 || r == 1 || r == REPROC_EPIPE || (VP_F > 0 && r < 0),
                   "poll of one source returns something other than 0, 1 or the closed-pipe error");
